@@ -366,6 +366,24 @@ fn check_oracle(cx: &mut Ctx, line: &str, ops: &[Op], paths: &BTreeSet<String>, 
                     if prop == "C15" && (outs[i].split(';').count() != want.split(';').count()) {
                         cx.oracle_fail("C14", line, &format!("after op {}: observer lists differ", i + 1));
                     }
+                    // … and "operations on one resource never change another resource's observers": a change
+                    // notification for resource p that leaves ANOTHER resource's observers different from the
+                    // reference touched a resource it does not name
+                    if let Op::Chg(p, _, _) = o {
+                        let observers_of = |d: &str| -> Vec<(String, String)> {
+                            d.split(' ').skip(1).filter_map(|item| {
+                                let (path, rest) = item.split_once('{')?;
+                                let obs = rest.trim_end_matches('}').split_once(';').map(|x| x.1).unwrap_or("");
+                                Some((path.to_string(), obs.to_string()))
+                            }).collect()
+                        };
+                        let key = hex(p.as_bytes());
+                        let a = observers_of(&outs[i]);
+                        let b = observers_of(&want);
+                        if a.iter().zip(b.iter()).any(|(x, y)| x.0 != key && x != y) {
+                            cx.oracle_fail("C14", line, &format!("after op {} ({}): the observers of a resource OTHER than the one named changed: {} but the reference gives {}", i + 1, o.token(), outs[i], want));
+                        }
+                    }
                     break;
                 }
             }
